@@ -54,7 +54,22 @@ def mk_store(spec: str):
     frozen = spec.startswith('F:')
     body = spec[2:] if frozen else spec
     specs = [] if body == '-' else [tuple(int(x) for x in t.split('.')) for t in body.split(',')]
-    return Predicates.Frozen(specs) if frozen else Predicates(specs)
+    if frozen or not specs:
+        return Predicates.Frozen(specs) if frozen else Predicates(specs)
+    # the parser's result is a function of the store's CONTENT: the same content is reached through different histories —
+    # the constructor, index assignment over a member with the same symbol and another arity, a slice assignment of the
+    # members onto themselves
+    how = sum(sum(t) for t in specs) % 3
+    if how == 0:
+        return Predicates(specs)
+    if how == 1:
+        v = Predicates([(i, sub, ar + 1) for (i, sub, ar) in specs])
+        for k, t in enumerate(specs):
+            v[k] = Predicate(t)
+        return v
+    v = Predicates(specs)
+    v[:] = list(v)
+    return v
 
 
 def exc_kind(e: BaseException) -> str:
